@@ -371,6 +371,8 @@ pub fn generate(stream: &str, tier: &str, seed: u64) -> Vec<String> {
             crate::gen_trie::gen_perm(&mut rng, thorough, &mut out);
         }
         "l1.fault" => gen_fault(&mut rng, thorough, &mut out),
+        "l1.vrf" => gen_vrf(&mut rng, thorough, &mut out),
+        "l1.partial" => gen_partial(&mut rng, thorough, &mut out),
         "l1.dir.c01" => {
             for i in 0..ncases {
                 let o = DirOpts { epochs: epochs + (i % 3) * 4, users, lookups: false, histories: false, audits: false, dumps: true, tombstones: false, proofs: false, hot_user: i % 2 == 0, audit_adv: false, lookup_adv: false, history_adv: false, lag: false };
@@ -574,6 +576,124 @@ pub fn gen_fault(rng: &mut Rng, thorough: bool, out: &mut Vec<String>) {
                 // single update on a deeper tree
                 out.push(format!("fx.enum {}", pair(rng, 4)));
             }
+        }
+    }
+}
+
+
+/// `l1.partial`: partial commits (C11) for publishes that create, split (decompress) and update nodes.
+pub fn gen_partial(rng: &mut Rng, thorough: bool, out: &mut Vec<String>) {
+    let rt = rt();
+    for cfg in ["wv1", "exp"] {
+        for round in 0..(if thorough { 4 } else { 1 }) {
+            out.push(format!("fx.reset {cfg} none off"));
+            out.push(format!("ck {}", key_hex(&rt)));
+            let pool = user_pool(rng, 6);
+            for u in &pool {
+                for v in 1..=8u64 {
+                    for fresh in [true, false] {
+                        out.push(format!("vrf {} {} {} {}", hex_or_dash(u), if fresh { "F" } else { "S" }, v, show_label(&vrf_label(&rt, cfg, u, fresh, v))));
+                    }
+                }
+            }
+            let pair = |rng: &mut Rng, i: usize| format!("{} {}", hex_or_dash(&pool[i]), hex_or_dash(&rng.bytes(3)));
+            // first publish into the empty tree
+            out.push(format!("pc.enum {}", pair(rng, 0)));
+            out.push(format!("fx.publish {} {}", pair(rng, 0), pair(rng, 1)));
+            // creates nodes (and splits existing ones)
+            out.push(format!("pc.enum {} {}", pair(rng, 2), pair(rng, 3)));
+            out.push(format!("fx.publish {} {}", pair(rng, 2), pair(rng, 3)));
+            // updates only
+            out.push(format!("pc.enum {}", pair(rng, 0)));
+            out.push(format!("pc.enum {} {}", pair(rng, 1), pair(rng, 2)));
+            out.push(format!("fx.publish {}", pair(rng, 1)));
+            // mixed, on a deeper tree
+            out.push(format!("pc.enum {} {} {}", pair(rng, 1), pair(rng, 4), pair(rng, 5)));
+            out.push(format!("fx.publish {} {}", pair(rng, 4), pair(rng, 0)));
+            out.push(format!("pc.enum {}", pair(rng, 5)));
+            let _ = round;
+        }
+    }
+}
+
+
+/// `l1.vrf` (C18): VRF input bytes, the VRF oracle, and altered VRF proof bytes through the real `lookup_verify`.
+pub fn gen_vrf(rng: &mut Rng, thorough: bool, out: &mut Vec<String>) {
+    let labels: Vec<Vec<u8>> = vec![
+        vec![],
+        vec![0],
+        vec![0, 0],
+        vec![1],
+        vec![0x61],
+        vec![0x61, 0x62],
+        (0..300).map(|i| (i % 251) as u8).collect(),
+        (0..2048).map(|i| (i % 7) as u8).collect(),
+        vec![0xff; 8],
+        // a label whose bytes imitate the suffix (freshness byte + version) of another input
+        vec![0x61, 1, 0, 0, 0, 0, 0, 0, 0, 1],
+    ];
+    let versions: Vec<u64> = vec![0, 1, 2, 255, 256, 1 << 32, (1 << 32) + 1, 1 << 63, u64::MAX - 1, u64::MAX];
+    for cfg in ["wv1", "exp"] {
+        for l in &labels {
+            for v in &versions {
+                for f in ["F", "S"] {
+                    out.push(format!("vrfin {cfg} {} {f} {v}", hex_or_dash(l)));
+                }
+            }
+        }
+        for _ in 0..(if thorough { 400 } else { 60 }) {
+            let n = rng.range(0, 40) as usize;
+            let l = rng.bytes(n);
+            out.push(format!("vrfin {cfg} {} {} {}", hex_or_dash(&l), if rng.chance(1, 2) { "F" } else { "S" }, rng.next()));
+        }
+        // the oracle over the public API (each line runs ~260 verifications)
+        let nl = if thorough { labels.len() } else { 5 };
+        for l in labels.iter().take(nl) {
+            for v in [1u64, 2, 1 << 32, u64::MAX] {
+                for f in ["F", "S"] {
+                    out.push(format!("o.vrf.check {cfg} {} {f} {v}", hex_or_dash(l)));
+                }
+            }
+        }
+    }
+    // altered proof bytes through the real lookup verifier
+    let rt = rt();
+    for cfg in ["wv1", "exp"] {
+        out.push(format!("reset {cfg}"));
+        out.push(format!("ck {}", key_hex(&rt)));
+        let pool = user_pool(rng, 3);
+        for u in &pool {
+            for v in 1..=6u64 {
+                for fresh in [true, false] {
+                    out.push(format!("vrf {} {} {} {}", hex_or_dash(u), if fresh { "F" } else { "S" }, v, show_label(&vrf_label(&rt, cfg, u, fresh, v))));
+                }
+            }
+        }
+        for round in 0..3 {
+            let line = pool.iter().map(|u| format!("{} {}", hex_or_dash(u), hex_or_dash(&rng.bytes(2)))).collect::<Vec<_>>().join(" ");
+            out.push(format!("dir.publish {line}"));
+            let _ = round;
+        }
+        for (i, u) in pool.iter().enumerate() {
+            let hu = hex_or_dash(u);
+            let other = hex_or_dash(&pool[(i + 1) % pool.len()]);
+            out.push(format!("adv.lookup {hu}"));
+            out.push(format!("adv.lookup {hu} exvrf.splus"));
+            out.push(format!("adv.lookup {hu} exvrf.trunc"));
+            let step = if thorough { 1 } else { 5 };
+            for b in (0..80).step_by(step) {
+                out.push(format!("adv.lookup {hu} exvrf.flip:{b}"));
+                out.push(format!("adv.lookup {hu} exvrf.zero:{b}"));
+                out.push(format!("adv.lookup {hu} exvrf.inc:{b}"));
+                out.push(format!("adv.lookup {hu} frvrf.flip:{b}"));
+                out.push(format!("adv.lookup {hu} mkvrf.flip:{b}"));
+            }
+            // honest proofs for other inputs in place of the right one
+            out.push(format!("adv.lookup {hu} exvrf.other:{other}:F:3"));
+            out.push(format!("adv.lookup {hu} exvrf.other:{hu}:S:3"));
+            out.push(format!("adv.lookup {hu} exvrf.other:{hu}:F:2"));
+            out.push(format!("adv.lookup {hu} exvrf.other:{hu}:F:3"));
+            out.push(format!("adv.lookup {hu} exvrf.other:{hu}:F:4"));
         }
     }
 }
